@@ -153,7 +153,7 @@ Proof.
     unfold client_handle_certificate_verify in H.
     apply with_parse_inv2 in H. destruct H as [(v & _ & H) | (-> & _ & ->)]; [| apply cs_none; auto].
     destruct (check_cv O c s v SERVER_CONTEXT_STRING); [inversion H; subst; apply cs_none; auto |].
-    destruct (negb ((if f_verify c then o_cert_ok O (f_server_name c) (t_peer s) else 0) =? 0));
+    destruct (negb ((if f_verify c then o_cert_ok O (verify_name c) (t_peer s) else 0) =? 0));
       [inversion H; subst; apply cs_none; auto |].
     inversion H; subst o s' out0; clear H. apply cs_cv; fields; auto.
   - (* Finished *)
